@@ -566,6 +566,7 @@ static bool randomBasis(Rng& g, const LPModel& M, std::vector<int>& rs, std::vec
 struct C04Res
 {
    std::string tag, detail;
+   std::vector<std::pair<std::string, std::string>> all;    // every finding of the run (first one also in tag/detail)
    void set(const std::string& t, const std::string& d)
    {
       if(tag.empty())
@@ -573,6 +574,13 @@ struct C04Res
          tag = t;
          detail = d;
       }
+      for(auto& p : all) if(p.first == t) return;
+      all.push_back({t, d});
+   }
+   bool has(const std::string& t) const
+   {
+      for(auto& p : all) if(p.first == t) return true;
+      return false;
    }
 };
 
@@ -949,6 +957,8 @@ static C04Res c05Once(const Instance& I, const ParamSet& cfg, int loadMode, uint
          if(nz) S.count("c05.bases_with_nonzero_scale_exponent");
       }
    }
+   // every query kind is judged on its own: a failing kind is recorded and skipped afterwards, the others go on
+   std::set<std::string> dead;
    for(int us = 1; us >= 0; us--)
    {
       bool unscale = us == 1;
@@ -971,7 +981,9 @@ static C04Res c05Once(const Instance& I, const ParamSet& cfg, int loadMode, uint
          int kk = m <= 6 ? t : g.range(0, m - 1);
          bool sparse = g.chance(0.5);
          // ---- inverse column: B * col_k = e_k
+         [&]()
          {
+            if(dead.count("invcol")) return;
             std::vector<double> buf(m + 2 * CAN, 0.0);
             for(int c = 0; c < CAN; c++) buf[c] = buf[m + CAN + c] = 12345.678;
             std::vector<int> inds(m + 1, -7);
@@ -981,17 +993,17 @@ static C04Res c05Once(const Instance& I, const ParamSet& cfg, int loadMode, uint
             if(!ok)
             {
                R.set("invcol.failed" + sfx, "getBasisInverseColReal returned false although a regular basis is available");
-               return R;
+               { dead.insert("invcol"); return; }
             }
             for(int c = 0; c < CAN; c++) if(buf[c] != 12345.678 || buf[m + CAN + c] != 12345.678)
                {
                   R.set("invcol.canary" + sfx, "getBasisInverseColReal wrote outside [0,numRows)");
-                  return R;
+                  { dead.insert("invcol"); return; }
                }
             for(int i = 0; i < m; i++) if(!std::isfinite(buf[CAN + i]))
                {
                   R.set("invcol.nonfinite" + sfx, "getBasisInverseColReal returned a non-finite entry");
-                  return R;
+                  { dead.insert("invcol"); return; }
                }
             std::vector<Q> col(m);
             Q cn = 0;
@@ -1013,7 +1025,7 @@ static C04Res c05Once(const Instance& I, const ParamSet& cfg, int loadMode, uint
             if(ratio > 1)
             {
                R.set("invcol.residual" + sfx, "B * (column " + std::to_string(kk) + " of inverse) differs from the unit vector by " + ds(dq(worst)));
-               return R;
+               { dead.insert("invcol"); return; }
             }
             if(sparse && ninds >= 0)
             {
@@ -1022,17 +1034,19 @@ static C04Res c05Once(const Instance& I, const ParamSet& cfg, int loadMode, uint
                for(int i = 0; i < m; i++) if((buf[CAN + i] != 0.0) != (is.count(i) > 0))
                   {
                      R.set("invcol.index" + sfx, "sparse index output does not list exactly the nonzero positions (position " + std::to_string(i) + ")");
-                     return R;
+                     { dead.insert("invcol"); return; }
                   }
                if((int)is.size() != ninds)
                {
                   R.set("invcol.index" + sfx, "duplicate index in sparse output");
-                  return R;
+                  { dead.insert("invcol"); return; }
                }
             }
-         }
+         }();
          // ---- inverse row: row_k * B = e_k^T
+         [&]()
          {
+            if(dead.count("invrow")) return;
             std::vector<double> buf(m + 2 * CAN, 0.0);
             for(int c = 0; c < CAN; c++) buf[c] = buf[m + CAN + c] = 12345.678;
             std::vector<int> inds(m + 1, -7);
@@ -1042,17 +1056,17 @@ static C04Res c05Once(const Instance& I, const ParamSet& cfg, int loadMode, uint
             if(!ok)
             {
                R.set("invrow.failed" + sfx, "getBasisInverseRowReal returned false although a regular basis is available");
-               return R;
+               { dead.insert("invrow"); return; }
             }
             for(int c = 0; c < CAN; c++) if(buf[c] != 12345.678 || buf[m + CAN + c] != 12345.678)
                {
                   R.set("invrow.canary" + sfx, "getBasisInverseRowReal wrote outside [0,numRows)");
-                  return R;
+                  { dead.insert("invrow"); return; }
                }
             for(int i = 0; i < m; i++) if(!std::isfinite(buf[CAN + i]))
                {
                   R.set("invrow.nonfinite" + sfx, "getBasisInverseRowReal returned a non-finite entry");
-                  return R;
+                  { dead.insert("invrow"); return; }
                }
             std::vector<Q> row(m);
             Q rn = 0;
@@ -1079,7 +1093,7 @@ static C04Res c05Once(const Instance& I, const ParamSet& cfg, int loadMode, uint
             if(ratio > 1)
             {
                R.set("invrow.residual" + sfx, "(row " + std::to_string(kk) + " of inverse) * B differs from the unit row by " + ds(dq(worst)));
-               return R;
+               { dead.insert("invrow"); return; }
             }
             if(sparse && ninds >= 0)
             {
@@ -1088,10 +1102,10 @@ static C04Res c05Once(const Instance& I, const ParamSet& cfg, int loadMode, uint
                for(int i = 0; i < m; i++) if((buf[CAN + i] != 0.0) != (is.count(i) > 0))
                   {
                      R.set("invrow.index" + sfx, "sparse index output does not list exactly the nonzero positions (position " + std::to_string(i) + ")");
-                     return R;
+                     { dead.insert("invrow"); return; }
                   }
             }
-         }
+         }();
       }
       // ---- solve / multiply with small integer vectors (B v exactly representable)
       for(int t = 0; t < 3; t++)
@@ -1110,7 +1124,9 @@ static C04Res c05Once(const Instance& I, const ParamSet& cfg, int loadMode, uint
                   if(v[i] != 0) BTv[c] += B[i][c] * v[i];
                }
          // multBasis: B v
+         [&]()
          {
+            if(dead.count("mult")) return;
             std::vector<double> vec(m);
             for(int i = 0; i < m; i++) vec[i] = dq(v[i]);
             bool ok = sp.multBasis(vec.data(), unscale);
@@ -1118,12 +1134,12 @@ static C04Res c05Once(const Instance& I, const ParamSet& cfg, int loadMode, uint
             if(!ok)
             {
                R.set("mult.failed" + sfx, "multBasis returned false");
-               return R;
+               { dead.insert("mult"); return; }
             }
             for(int i = 0; i < m; i++) if(!std::isfinite(vec[i]))
                {
                   R.set("mult.nonfinite" + sfx, "multBasis returned a non-finite entry");
-                  return R;
+                  { dead.insert("mult"); return; }
                }
             Q worst = 0;
             for(int i = 0; i < m; i++) if(qabs(qd(vec[i]) - Bv[i]) > worst) worst = qabs(qd(vec[i]) - Bv[i]);
@@ -1132,11 +1148,13 @@ static C04Res c05Once(const Instance& I, const ParamSet& cfg, int loadMode, uint
             if(ratio > 1)
             {
                R.set("mult.value" + sfx, "multBasis(v) differs from B v by " + ds(dq(worst)));
-               return R;
+               { dead.insert("mult"); return; }
             }
-         }
+         }();
          // multBasisTranspose: B^T v
+         [&]()
          {
+            if(dead.count("multT")) return;
             std::vector<double> vec(m);
             for(int i = 0; i < m; i++) vec[i] = dq(v[i]);
             bool ok = sp.multBasisTranspose(vec.data(), unscale);
@@ -1144,12 +1162,12 @@ static C04Res c05Once(const Instance& I, const ParamSet& cfg, int loadMode, uint
             if(!ok)
             {
                R.set("multT.failed" + sfx, "multBasisTranspose returned false");
-               return R;
+               { dead.insert("multT"); return; }
             }
             for(int i = 0; i < m; i++) if(!std::isfinite(vec[i]))
                {
                   R.set("multT.nonfinite" + sfx, "multBasisTranspose returned a non-finite entry");
-                  return R;
+                  { dead.insert("multT"); return; }
                }
             Q worst = 0;
             for(int i = 0; i < m; i++) if(qabs(qd(vec[i]) - BTv[i]) > worst) worst = qabs(qd(vec[i]) - BTv[i]);
@@ -1158,11 +1176,13 @@ static C04Res c05Once(const Instance& I, const ParamSet& cfg, int loadMode, uint
             if(ratio > 1)
             {
                R.set("multT.value" + sfx, "multBasisTranspose(v) differs from B^T v by " + ds(dq(worst)));
-               return R;
+               { dead.insert("multT"); return; }
             }
-         }
+         }();
          // solve: B sol = B v  =>  residual check on B sol - rhs
+         [&]()
          {
+            if(dead.count("solve")) return;
             bool exactRhs = true;
             std::vector<double> rhs(m), sol(m, 0.0);
             for(int i = 0; i < m; i++)
@@ -1177,12 +1197,12 @@ static C04Res c05Once(const Instance& I, const ParamSet& cfg, int loadMode, uint
                if(!ok)
                {
                   R.set("solve.failed" + sfx, "getBasisInverseTimesVecReal returned false");
-                  return R;
+                  { dead.insert("solve"); return; }
                }
                for(int i = 0; i < m; i++) if(!std::isfinite(sol[i]))
                   {
                      R.set("solve.nonfinite" + sfx, "getBasisInverseTimesVecReal returned a non-finite entry");
-                     return R;
+                     { dead.insert("solve"); return; }
                   }
                Q sn = 0, worst = 0;
                std::vector<Q> sq(m);
@@ -1202,10 +1222,10 @@ static C04Res c05Once(const Instance& I, const ParamSet& cfg, int loadMode, uint
                if(ratio > 1)
                {
                   R.set("solve.residual" + sfx, "B * getBasisInverseTimesVecReal(rhs) differs from rhs by " + ds(dq(worst)));
-                  return R;
+                  { dead.insert("solve"); return; }
                }
             }
-         }
+         }();
       }
    }
    return R;
@@ -1239,14 +1259,16 @@ static void caseC05(long long k, Rng& g)
    S.seen("cfg", fnv(cfg.key()));
    S.seen("nontrivial", I.M.signature() ^ fnv(cfg.key()) ^ (sub % 10));
    C04Res r = c05Once(I, cfg, loadMode, sub, true);
-   if(!r.tag.empty())
+   // one finding per failing query kind (a wrong multBasis must not hide a wrong getBasisInverseRowReal and vice versa)
+   for(size_t f = 0; f < r.all.size() && f < 5; f++)
    {
+      const std::string tag = r.all[f].first;
       ParamSet mc;
       std::string cell = cellKey(cfg, [&](const ParamSet & p)
       {
-         return c05Once(I, p, loadMode, sub, false).tag == r.tag;
+         return c05Once(I, p, loadMode, sub, false).has(tag);
       }, &mc);
-      S.viol("C05:" + r.tag + ":" + cell, r.detail + " | family " + fam + ", full config " + cfg.key(), replayJson(I.M, cfg, mc, loadMode));
+      S.viol("C05:" + tag + ":" + cell, r.all[f].second + " | family " + fam + ", full config " + cfg.key(), replayJson(I.M, cfg, mc, loadMode));
    }
    if(k < 4) S.sample(Json().str("family", fam).num("m", I.M.m).num("n", I.M.n).str("config", cfg.key()).done());
    S.end(k);
